@@ -113,7 +113,7 @@ def build(env, shape, tag='d'):
             env.assume(lo == hi)
         else:
             env.assume(lo <= hi)
-        return Spec(k, dt=dt.IntRange(lo, hi), lo=lo, hi=hi)
+        return Spec(k, dt=dt.IntRange(lo, hi), lo=lo, hi=hi, big=shape.get('big', False))
     if k == 'scaled':
         s = shape['scale']
         klo = env.int(tag + '.klo', -KBOX, KBOX)
@@ -187,6 +187,11 @@ def make(env, desc, tag='v', box=None):
             return Cand(desc, env.real(tag, -box['f'], box['f']))
         if desc == 'int':
             return Cand(desc, env.int(tag, -(1 << 70), 1 << 70))
+        if desc == 'bigint':
+            # beyond 2**53 and odd: not representable as a double (exposes conversions through float on the witness replay)
+            v = env.int(tag, 2 ** 53 + 1, 2 ** 63)
+            env.assume(v % 2 == 1)
+            return Cand('int', v)
         if desc == 'smallint':
             return Cand('int', env.int(tag, 0, 6))
         if desc == 'float':
@@ -229,6 +234,8 @@ def valid_value(env, spec, tag):
     if k == 'int':
         v = env.int(tag)
         env.assume(And(spec.lo <= v, v <= spec.hi))
+        if getattr(spec, 'big', False):
+            env.assume(And(v > 2 ** 53, v % 2 == 1))
         return v
     if k == 'scaled':
         n = env.int(tag)
